@@ -2915,6 +2915,9 @@ class FuncParseDate(ValueFunc):
                 idx = fmt.find(part)
                 if idx == -1:
                     continue
+                if not s[idx:idx+len(part)].isdigit():
+                    s = None
+                    break
                 vals[part] = int(s[idx:idx+len(part)])
                 s = s[0:idx] + s[idx+len(part):]
                 fmt = fmt[0:idx] + fmt[idx+len(part):]
